@@ -420,6 +420,10 @@ const fn lay(v5: bool, b15: u8, authentic: bool, y_len: usize, has_nts: bool, in
     Layout { v5, b15, authentic, y_len, has_nts, inner, x_len }
 }
 
+// Registered (lib/props/C07.py): c07_v4_plain, c07_v5_plain_authnak, c07_v5_plain_sync,
+// c07_v5_plain_kf_authnak_kiss. NOT registered (symbolic execution of handle_incoming / deserialize
+// exceeds 8 GB as soon as an authenticator field is decrypted, genuine or forged; kept for a machine
+// with more memory): c07_v4_genuine*, c07_v4_forged, c07_v5_genuine*, c07_v5_forged, c07_parse_*.
 // NTPv4
 c07_plain!(c07_v4_plain, lay(false, 0, false, 0, false, 0, 28));
 c07_genuine!(c07_v4_genuine, lay(false, 0, true, 0, true, 1, 0));
@@ -435,3 +439,113 @@ c07_genuine_nocookie!(c07_v5_genuine_pre, lay(true, 0x01, true, 20, true, 0, 0))
 c07_genuine_nocookie!(c07_v5_genuine_post, lay(true, 0x01, true, 0, true, 0, 20));
 c07_forged!(c07_v5_forged, lay(true, 0x04, false, 0, true, 1, 0));
 c07_kf!(c07_v5_plain_kf_authnak_kiss, lay(true, 0x04, false, 0, false, 0, 0));
+
+// ------------------------------------------------------------------------------------------
+// Parser level: which fields of an authenticated datagram end up in which trust class and which
+// cookies `new_cookies()` (the only source of stored cookies in `process_message`) yields.
+// `handle_incoming` on a datagram with a genuine authenticator does not fit in 8 GB (see the props
+// file), so the authenticated/encrypted split is decided here on `NtpPacket::deserialize` itself.
+// Layout: hdr48 + uid(36) + cookie in clear(16) + authenticator(1 encrypted 16-byte field: cookie or
+// unknown) + cookie in clear(28).
+/// `pre`/`post`: a 16/28-byte cookie field in clear in front of / behind the authenticator;
+/// `inner`: number of encrypted 16-byte fields (each a cookie or an unknown field), 0 or 1.
+fn c07_parse_body<const N: usize>(authentic: bool, pre: bool, inner: usize, post: bool) {
+    use ntp_proto::verif::packet as ph;
+    use ntp_proto::verif::packet::extension_fields::ExtField;
+    let n_off = if pre { 100 } else { 84 };
+    let ct_len = 16 * inner + TAG_LEN;
+    let nts_len = 8 + NONCE_LEN + ct_len;
+    let total = n_off + nts_len + if post { 28 } else { 0 };
+    assert!(N == total + 1);
+    let mut msg: [u8; N] = kani::any();
+    let jq: usize = kani::any();
+    kani::assume(jq < 12);
+    msg[0] = 0x24;
+    // uid
+    msg[48] = 0x01;
+    msg[49] = 0x04;
+    put16(&mut msg, 50, 36);
+    if pre {
+        msg[84] = 0x02;
+        msg[85] = 0x04;
+        put16(&mut msg, 86, 16);
+    }
+    // authenticator
+    msg[n_off] = 0x04;
+    msg[n_off + 1] = 0x04;
+    put16(&mut msg, n_off + 2, nts_len);
+    put16(&mut msg, n_off + 4, NONCE_LEN);
+    put16(&mut msg, n_off + 6, ct_len);
+    let o = n_off + 8 + NONCE_LEN;
+    let mut is_cookie = false;
+    if inner == 1 {
+        is_cookie = msg[o] & 1 == 1;
+        msg[o] = if is_cookie { 0x02 } else { 0x43 };
+        msg[o + 1] = if is_cookie { 0x04 } else { 0x21 };
+        put16(&mut msg, o + 2, 16);
+    }
+    if post {
+        let x = n_off + nts_len;
+        msg[x] = 0x02;
+        msg[x + 1] = 0x04;
+        put16(&mut msg, x + 2, 28);
+    }
+    expect_extents(&msg[..total], n_off, ct_len, authentic);
+
+    let cipher = ModelCipher { id: [S2C_ID] };
+    let provider: Option<&dyn Cipher> = Some(&cipher);
+    let r = NtpPacket::deserialize(&msg[..total], &provider);
+    match r {
+        Ok((p, _)) => {
+            assert!(authentic, "a datagram whose authenticator does not verify is never returned as a packet");
+            assert!(unsafe { DEC_OK == 1 && DEC_WRONG_KEY == 0 });
+            // trust classes
+            let auth = ph::packet_authenticated(&p);
+            let enc = ph::packet_encrypted(&p);
+            let unt = ph::packet_untrusted(&p);
+            assert!(auth.len() == if pre { 2 } else { 1 } && enc.len() == inner && unt.len() == if post { 1 } else { 0 },
+                "fields in front of the authenticator are authenticated, its plaintext is encrypted, the rest is untrusted");
+            assert!(matches!(auth[0], ExtField::UniqueIdentifier(_)));
+            // cookie intake
+            let mut n_new = 0usize;
+            for c in p.new_cookies() {
+                n_new += 1;
+                assert!(is_cookie, "a cookie is only yielded if the encrypted part holds one");
+                assert!(c.len() == 12 && c[jq] == msg[o + 4 + jq], "the yielded cookie is the encrypted one (every byte)");
+            }
+            assert!(n_new == if is_cookie { 1 } else { 0 }, "new cookies = exactly the cookie fields of the encrypted part; cookies in clear are never yielded");
+            if inner == 1 {
+                kani::cover!(n_new == 1, "a cookie is delivered");
+            }
+            kani::cover!(n_new == 0, "no cookie in the encrypted part");
+            core::mem::forget(p);
+        }
+        Err(e) => {
+            assert!(!authentic, "a genuine datagram of this layout parses");
+            assert!(unsafe { DEC_OK == 0 });
+            kani::cover!(unsafe { DEC_CALLS == 1 }, "decryption was attempted and failed");
+            core::mem::forget(e);
+        }
+    }
+}
+
+nharness! {
+    #[kani::unwind(8)]
+    fn c07_parse_v4_genuine() {
+        c07_parse_body::<141>(true, false, 1, false);
+    }
+}
+
+nharness! {
+    #[kani::unwind(8)]
+    fn c07_parse_v4_genuine_clear() {
+        c07_parse_body::<169>(true, true, 0, true);
+    }
+}
+
+nharness! {
+    #[kani::unwind(8)]
+    fn c07_parse_v4_forged() {
+        c07_parse_body::<141>(false, false, 1, false);
+    }
+}
